@@ -30,6 +30,22 @@ def _mentions_term(term, var):
     return _mentions(term, var)
 
 
+TRANSPARENT_DECORATORS = ("staticmethod", "classmethod", "property", "functools.wraps", "wraps", "defer.inlineCallbacks", "inlineCallbacks",
+                          "not_reentrant")
+
+
+def opaque_decorators(fnode):
+    """decorators whose effect on the function the engine does not model (e.g. functools.lru_cache, which shares the returned object
+    between calls): a function carrying one is never executed as if it were undecorated"""
+    out = []
+    for d in getattr(fnode, "decorator_list", []):
+        t = ast.unparse(d.func if isinstance(d, ast.Call) else d)
+        if t in TRANSPARENT_DECORATORS or t.endswith(".setter") or t.endswith(".getter"):
+            continue
+        out.append(ast.unparse(d))
+    return out
+
+
 def is_inline_callbacks(fnode):
     return any(ast.unparse(d).endswith("inlineCallbacks") for d in getattr(fnode, "decorator_list", []))
 
@@ -131,7 +147,9 @@ class Calls(Interp):
         for c in ci.mro:
             if c is k:
                 break
-            if isinstance(c, ClassInfo) and mattr in c.assigns and mattr not in c.methods and mattr not in c.properties:
+            if isinstance(c, ClassInfo) and mattr in c.assigns and mattr not in c.methods and mattr not in c.properties \
+                    and mattr not in self.instance_fields(ci):
+                self.check_not_overridden(c, mattr, node)
                 v = self.class_data(c, mattr, node)
                 if isinstance(v, FuncV) and isinstance(v.node, ast.Lambda):
                     return BoundV(obj, v, mattr)     # a plain function in a class body is a method
@@ -154,6 +172,7 @@ class Calls(Interp):
         # class-level data attribute?
         for c in ci.mro:
             if isinstance(c, ClassInfo) and mattr in c.assigns and mattr not in self.instance_fields(ci):
+                self.check_not_overridden(c, mattr, node)
                 return self.class_data(c, mattr, node)
         tag = self.reg.field_tag([c.name for c in ci.mro if isinstance(c, ClassInfo)], mattr)
         if self.current_contract is not None and mattr in self.current_contract.field_tags:
@@ -168,6 +187,15 @@ class Calls(Interp):
             if gm is not None and not isinstance(gm, tuple):
                 return self.call_value(BoundV(obj, FuncV(gm, gk.module, gk), "__getattr__"), [SV(so.strv(attr), "str")], {}, node)
         return self.read_field(ref, mattr, tag, node, default)
+
+    def check_not_overridden(self, c, attr, node):
+        """a class-level data attribute read through an instance is the class constant only if no code assigns it on instances;
+        otherwise it has to be declared as an instance field (fields_of) so that it is read from the heap"""
+        if self.spec_mode:
+            return
+        sites = self.repo.attr_assign_sites().get(attr)
+        if sites:
+            self.unsupported(node, "class attribute %s.%s is also assigned on instances (%s): declare it with fields_of" % (c.name, attr, sites[0]))
 
     def instance_fields(self, ci):
         out = set()
@@ -535,6 +563,8 @@ class Calls(Interp):
             self.unsupported(node, "inlining depth (recursion?) at %s" % key)
         if key is not None:
             self.inlined.add(key)
+        if isinstance(f.node, ast.FunctionDef) and opaque_decorators(f.node):
+            self.unsupported(node, "call of %s decorated with %s (decorator semantics not modelled)" % (key or f.node.name, ", ".join(opaque_decorators(f.node))))
         if isinstance(f.node, ast.FunctionDef) and is_trivial_body(f.node):
             return SV(Val.none, "none")     # `pass` bodies (abstract base methods): no effect
         locs = self.bind_args(f, args, kwargs, node, star, dstar)
@@ -1632,7 +1662,15 @@ class Calls(Interp):
             v = it.force(self, node)
             return self.as_seq(v, node), None
         if isinstance(it, RangeV):
-            self.unsupported(node, "for over range")
+            # range(lo, hi) with symbolic bounds: the sequence lo, lo+1, ..., hi-1 (empty when hi <= lo)
+            if getattr(it, "step", None) is not None:
+                self.unsupported(node, "for over range with a step")
+            out = so.fresh("range", SeqV)
+            j = z3.Int("rj")
+            n = z3.If(it.hi > it.lo, it.hi - it.lo, z3.IntVal(0))
+            self.assume(z3.Length(out) == n)
+            self.assume(z3.ForAll([j], z3.Implies(z3.And(0 <= j, j < n), out[j] == Val.intv(it.lo + j)), patterns=[out[j]]))
+            return out, "int"
         return super().iter_seq(it, node)
 
     def as_seq(self, v, node=None):
